@@ -55,6 +55,10 @@ CHECKS.update({
                 text='Same schedule exploration with an adversarial consumer (delete right after read()) on lifetime-checked memory and a '
                      'vector-clock happens-before race detector over every non-atomic access.',
                 note='2 objects; preemption bound 1; races needing >= 2 preemptions outside; native confirmation by chaos-schedule stress replay under ASan'),
+    'C12': dict(cat='model_checking', ref='§C12',
+                text='llsym accounts every allocation of the real pipeline during symbolically executed sessions over files of N and 3N '
+                     'objects (saturating scaled-down thresholds); the live-heap peak must not grow with N; growth is re-measured natively.',
+                note='sizes N, 3N (6N thorough); thresholds scaled via private members; one cooperative schedule; extrapolation by induction argument'),
     'C15': dict(cat='model_checking', ref='§C15',
                 text='Real UncompressedFile (with real libstdc++ list/shared_ptr/vector code) executed on bounded operation histories with '
                      'symbolic data bytes and completely enumerated chunkings; every byte and observer compared with a flat byte-queue model.',
